@@ -100,7 +100,7 @@ def fopt(v):
 def run(ctx):
     thorough = ctx.tier == "thorough"
     rng = ctx.rng
-    ctx.proofs()
+    ctx.proofs(["C01/Props.v", "C01/PropsConsts.v"])
     warnings.filterwarnings("ignore")
     from quantecon.markov import DiscreteDP
 
